@@ -274,7 +274,7 @@ def run(ctx: Ctx):
                                                                                        "BaseConverter", "GenConverter"):
                 ctx.fail("converter-confined", f"{fname}:{dotted(node.func)}",
                          "creates another converter inside a register function", P_HOOKS, node.lineno)
-    ctx.floor("converter method calls examined", n_calls, 60)
+    ctx.floor("converter method calls examined", n_calls, 20)
     # foreign converter leaves seen by the hook analysis
     sa = _sitebase.analysis(ctx)
     for o in sa.outcomes:
